@@ -439,13 +439,35 @@ func checkC12(p *Prog, r *Report) {
 		nmap := 0
 		for _, f := range withAnons(sh) {
 			eachInstr(f, func(i ssa.Instruction) {
-				/* A use of ErrOneShellClosed as a value. */
-				u, ok := i.(*ssa.UnOp)
-				if !ok || token.MUL != u.Op {
-					return
+				/* A use of ErrOneShellClosed as a value — or the making
+				of an error value which unwraps to it. */
+				isSentinelLoad := func(j ssa.Instruction) bool {
+					u, ok := j.(*ssa.UnOp)
+					if !ok || token.MUL != u.Op {
+						return false
+					}
+					g, ok := u.X.(*ssa.Global)
+					return ok && p.ownGlobal(g) && oneShellErrs[g.Name()]
 				}
-				g, ok := u.X.(*ssa.Global)
-				if !ok || !p.ownGlobal(g) || !oneShellErrs[g.Name()] {
+				wraps := false
+				if al, ok := i.(*ssa.Alloc); ok && al.Heap {
+					if n := namedOf(al.Type()); nil != n && nil != n.Obj().Pkg() && strings.HasPrefix(n.Obj().Pkg().Path(), ModPath) {
+						for _, mn := range []string{"Unwrap", "Is"} {
+							sel := p.SSA.MethodSets.MethodSet(types.NewPointer(n)).Lookup(n.Obj().Pkg(), mn)
+							if nil == sel {
+								continue
+							}
+							if m := p.SSA.MethodValue(sel); nil != m && nil != m.Blocks {
+								eachInstr(m, func(j ssa.Instruction) {
+									if isSentinelLoad(j) {
+										wraps = true
+									}
+								})
+							}
+						}
+					}
+				}
+				if !isSentinelLoad(i) && !wraps {
 					return
 				}
 				nmap++
